@@ -690,6 +690,7 @@ func gen(a Args, out *Out) {
 	}
 
 	nilRunnable(out)
+	probeLimit(out)
 	deepSlots(a, rng.Fork(), out, 2)
 	deepSlots(a, rng.Fork(), out, 3)
 
@@ -878,6 +879,42 @@ func nilRunnable(out *Out) {
 		})
 		if p {
 			out.Violation("C06/nil-runnable", "the scheduler panicked on a timer with a nil Runnable", h.Sx())
+		}
+	}
+}
+
+// probeLimit: after the id counter wrapped, nextID() must still hand out an id that is not
+// in use when many consecutive ids are pending (it probes candidate after candidate).
+// 10001 timers with the ids 1..10001 are pending, the counter is set back to 0, one more
+// timer is started: its id must be new, and all 10002 timers must be counted.
+func probeLimit(out *Out) {
+	for _, impl := range []int64{drv.ImplWheel, drv.ImplHeap} {
+		const n = 10001
+		h := drv.NewHist(impl, 1000, 0)
+		h.Jump(0)
+		h.Start(1000000)
+		d := drv.NewDriver(impl, 1000, 0)
+		t := d.Timer()
+		p, _ := Catch(func() {
+			for i := 0; i < n; i++ {
+				t.RunAfter(1000000, &drv.Job{})
+				d.HandleAdd()
+				if i%500 == 0 {
+					drv.Alive()
+				}
+			}
+			d.SetNextID(0)
+			id := t.RunAfter(1000000, &drv.Job{})
+			d.HandleAdd()
+			out.GoChecked++
+			if id >= 1 && id <= n {
+				out.Violation("C06/probe-limit", fmt.Sprintf("with the ids 1..%d pending and the id counter wrapped, the next timer got id %d, which is in use", n, id), h.Sx())
+			} else if sz := t.Size(); sz != n+1 {
+				out.Violation("C06/probe-limit", fmt.Sprintf("Size() = %d with %d timers pending", sz, n+1), h.Sx())
+			}
+		})
+		if p {
+			out.Violation("C06/probe-limit", "the scheduler panicked", h.Sx())
 		}
 	}
 }
